@@ -7,6 +7,11 @@ VERIF = os.path.dirname(os.path.dirname(os.path.abspath(__file__)))
 
 # id -> (technique, level category, level text, level note, design ref)
 CLAIMED = {
+    "C11": ("deterministic simulation with fault injection: real WordAdapter over a simulated byte device (SimDisk) with seeded fault plans (short reads/writes at every byte limit, Interrupted, Ok(0), hard errors, seek errors, full device, trailing partial word); conservation oracle over the recorded device history",
+            "fault_enumeration",
+            "The first fault of each faulting run is placed systematically (call index = run/15 mod calls, byte limit cycling through 1..word bytes-1) so that every call index and per-call limit is hit across runs; further benign faults at a swarm-randomised rate. Oracle: bytes acknowledged with Ok are on the device exactly once and in order; an error leaves the acknowledged bytes plus at most a prefix of the failed word; words read equal successive device chunks; a trailing partial word is an error; word_pos = words transferred; fault-free runs must succeed. Fault-free / benign-only / faulting runs are classed and reported separately. Sampling over word values and histories, enumeration only over (call index x byte limit).",
+            "SimDisk is trusted to stay within the std::io contracts; nothing is asserted about a stream after its first error.",
+            "DESIGN.md §4 C11"),
     "C13": ("deterministic simulation: seeded operation histories on the real in-memory word streams vs. array+cursor model, out-of-range reads/writes/seeks as injected faults",
             "exploration",
             "Seeded search over call histories (read/write/pos/set_pos/len/flush, <=40 calls) on all four in-memory word streams, five word types, owned and borrowed storage; every return value and the final contents are compared with an array+cursor reference model after each step. Sampling, not enumeration: a clean batch is evidence, not proof.",
